@@ -606,6 +606,10 @@ class Ctx:
     def finish(self, explanation=""):
         c = self.cov
         c["distinct_nontrivial"] = len(self._distinct)
+        if not c["samples"]:
+            # safety net: a check that forgot to record samples still shows what it ran
+            c["samples"] = [{"note": "no case sample recorded by this check", "tlc_runs": c["tlc_runs"][:2],
+                             "negative_controls": c["negative_controls"][:2]}]
         if explanation:
             c["explanation"] = explanation
         ev = {"property_id": self.prop, "tier": "thorough" if self.tier == "thorough" else "quick",
